@@ -1,4 +1,4 @@
-import Aurora.Model.Accept
+import Aurora.Lemmas.Accept
 import Aurora.Props.C04
 /-!
 # C06 — Only valid chunks are accepted from peers
@@ -158,6 +158,25 @@ theorem C06_pyramid_unseen_not_stored (seg d : Nat) (stale : Bytes)
             subst hk
             exact Or.inr (mem_dedup _ _ (List.mem_filter.mp hk1).1)
     · simp [hall] at h
+
+/-- **Unreachable entries are not stored** (concrete walk of the driver: `joiner` full read over
+    the pyramid getter, root not a manifest): every stored key is *reachable* from the root — it is
+    the root, or an aligned `refLen`-byte reference in the payload of a stored-map entry that is
+    itself reachable.  An extra entry nobody references is never stored, however valid it is. -/
+theorem C06_pyramid_unreachable_not_stored (seg d : Nat) (stale : Bytes) (C refLen maxReads : Nat)
+    (root : Key) (m : List Entry) (stored : List Entry)
+    (h : acceptPyramid H seg d stale (Accept.trav C refLen maxReads) root m = .ok stored) :
+    ∀ e ∈ stored, Reach (get m) refLen root e.1 := by
+  obtain ⟨asked, ht, hs⟩ := C06_pyramid_unseen_not_stored H seg d stale _ root m stored h
+  have hl : loadKeys C refLen maxReads (get m) root = .ok asked := by
+    unfold Accept.trav at ht
+    cases hk : loadKeys C refLen maxReads (get m) root with
+    | error e => simp [hk] at ht
+    | ok ks => simp [hk] at ht; rw [ht]
+  intro e he
+  rcases hs e he with hr | ha
+  · rw [hr]; exact Reach.root
+  · exact loadKeys_reach (get m) C refLen maxReads root asked hl _ ha
 
 /-- A pyramid with any invalid entry — reachable or not — is rejected as a whole. -/
 theorem C06_pyramid_invalid_entry_rejected (seg d : Nat) (stale : Bytes)
